@@ -7,7 +7,7 @@ From VF Require Import Base Iter Enc Lru LruStep Slru TwoQ Arc CacheStep Tiny WT
   BaseFacts LruFacts Counts SlruFacts TwoQFacts ArcFacts TinyFacts WTinyFacts Run C01Proofs.
 From Coq Require Import NArith ZArith Reals.
 From Flocq Require Import Core.Core IEEE754.Binary IEEE754.Bits IEEE754.BinarySingleNaN.
-From VF Require Import Sizing SizingFacts Conv ConvFacts LruFacts.
+From VF Require Import Sizing SizingFacts Conv ConvFacts LruFacts Sampled C20Proofs.
 
 Theorem C05_slru_total : forall (pc fc : nat) (ops : list sop) (o : sop),
   (1 <= pc)%nat -> (1 <= fc)%nat ->
@@ -217,6 +217,12 @@ Example C05_conversion_examples :
   conv_step [142; 4; 1; 10; 2; 20; 1; 11]%Z = Some [3; 2; 1; 11; 2; 20]%Z.
 Proof. vm_compute. split; reflexivity. Qed.
 
+(** ** the cost tracker (SampledLFU): its operations are total functions (the model has no panic site) and its i64
+    arithmetic wraps, so with arbitrary i64 costs and capacities [used] and every [room_left] stay i64 values *)
+Theorem C05_sampled_no_overflow : forall (mc : Z) (n : nat) (ops : list samop) (c : Z),
+  let s := samrun (sam_new mc n) ops in in64 (sused s) /\ in64 (sam_room_left s c).
+Proof. exact sampled_no_overflow. Qed.
+
 Print Assumptions C05_slru_total.
 Print Assumptions C05_twoq_total.
 Print Assumptions C05_arc_total.
@@ -239,3 +245,4 @@ Print Assumptions C05_builder_finalize.
 Print Assumptions C05_builder_defaults.
 Print Assumptions C05_conversions.
 Print Assumptions C05_conversion_total.
+Print Assumptions C05_sampled_no_overflow.
